@@ -271,15 +271,128 @@ def run_rewind(rec, F, T=None):
     return T
 
 
+def _lin_str(d):
+    parts = []
+    for k in sorted(d, key=lambda x: (x == "1", x)):
+        c = d[k]
+        if c == 0:
+            continue
+        if k == "1":
+            parts.append("%+d" % c)
+        else:
+            parts.append(("%s%s" % ("+" if c > 0 else "-", k)) if abs(c) == 1 else "%+d*%s" % (c, k))
+    return " ".join(parts) or "0"
+
+
+def _encoded_distances(rec, R, F, T):
+    """per label-carrying instruction kind: the set of distance values handed to op_jump / push_op_u16_tuple as linear
+    forms over O (offset of the instruction), L (offset of its target label), and whether that value also reaches the
+    range check (op_jump contains it; otherwise a call of jump_error with the same value). None = anchors not found
+    (the syntactic fallback judges)."""
+    from .. import peval
+    from ..facts import op_local, op_place
+    enc = T.enc_fn
+    if enc is None:
+        return None
+    fn = peval.with_closure_calls_inlined(F, enc)
+    header = body0 = instr = None
+    for bi, t in fn.calls():
+        if (t.get("decl") or "").endswith("iterator::Iterator::next") and t["to"] >= 0:
+            sv = sem.switch_variants(F, fn, t["to"])
+            if sv and sv[0].endswith("Option"):
+                for v, dst in fn.blocks[t["to"]]["t"]["targets"]:
+                    if sv[1].get(v) == "Some":
+                        for s_ in fn.blocks[dst]["s"]:
+                            if s_["r"]["k"] == "use" and (fn.locals[s_["d"]["l"]] or "").endswith("SymbolicByteCode") and not s_["d"]["p"]:
+                                header, body0, instr = bi, dst, s_["d"]["l"]
+    if header is None:
+        return None
+    loop_blocks = {b for b in fn.reachable if sem.reaches(fn, body0, b) and sem.reaches(fn, b, header)}
+    # `offset`: a usize local set before the loop and advanced inside it
+    offset = None
+    for l, ty in enumerate(fn.locals):
+        if ty != "usize" or l <= fn.argc:
+            continue
+        ds = fn.defs.get(l, [])
+        if any(d[2] not in loop_blocks and d[0] == "assign" and d[1]["k"] == "use" and d[1]["a"].get("const") for d in ds) and any(d[2] in loop_blocks for d in ds):
+            offset = l
+    lab = next((i for i in range(1, fn.argc + 1) if (fn.locals[i] or "") == "&[usize]"), None)
+    adt = F.adts.get("laythe_vm::byte_code::SymbolicByteCode")
+    if offset is None or lab is None or adt is None:
+        return None
+    variants = {v["name"]: int(v["discr"]) for v in adt["variants"]}
+    ikey = (instr, (("deref",),))
+    out = {}
+
+    def index_hook(pe, env, pl):
+        if pl["l"] == lab:
+            return ("sym", "L", 0)
+        return None
+    try:
+        for v in T.sym_variants:
+            ftys = T.sym_fields.get(v, [])
+            if v not in variants or v not in T.len:
+                continue
+
+            def call_hook(pe, env, t, argvals, v=v):
+                if t["f"].endswith("SymbolicByteCode::len"):
+                    return peval.C(T.len[v])
+                return NotImplemented
+            pe = peval.PEval(F, fn, discr_of={ikey: variants[v]}, call_hook=call_hook, index_hook=index_hook)
+            paths = pe.run(body0, {offset: ("sym", "O", 0)}, stop={header}, watch={offset})
+            vals, checked, adv = set(), True, set()
+            for pth in paths:
+                if pth["end"] == "diverge":
+                    continue
+                emitted, tested = [], []
+                for ev in pth["events"]:
+                    if ev[0] != "call":
+                        continue
+                    n = lastseg(ev[1])
+                    if n == "op_jump" and len(ev[2]) >= 4:
+                        emitted.append(ev[2][3])
+                        tested.append(ev[2][3])
+                    elif n == "push_op_u16_tuple" and len(ev[2]) >= 5:
+                        emitted.append(ev[2][4])
+                    elif n == "jump_error" and len(ev[2]) >= 2:
+                        tested.append(ev[2][1])
+                for e_ in emitted:
+                    l_ = peval.to_lin(e_)
+                    vals.add(tuple(sorted((k, c) for k, c in (l_ or {"?": 1}).items() if c != 0)))
+                    if not any(peval.to_lin(t_) == l_ and l_ is not None for t_ in tested):
+                        checked = False
+                fo = peval.to_lin(pth["env"].get(offset))
+                adv.add(tuple(sorted((fo or {"?": 1}).items())))
+            out[v] = {"values": vals, "checked": checked and bool(vals), "paths": len(paths), "advance": adv}
+    except peval.Limit as e_:
+        rec.unan(R, "ByteCodeEncoder::encode", str(e_))
+        return None
+    return out
+
+
 def run_jumps(rec, F, T=None):
     T = T or isa.tables(F)
     R = rec.rule("F1.j", "in every label-taking encoder arm the constant bias equals len(op) with the right sign, the arm range-checks the distance; compute_label_offsets records a label's offset before adding lengths and adds len() of every instruction; encode advances offset by len(); handlers apply the displacement after consuming all operand bytes", exhaustive=True)
+    dist = _encoded_distances(rec, R, F, T)
     for v in T.sym_variants:
         ftys = T.sym_fields.get(v, [])
         if not ftys or "Label" not in ftys[0] or v == "Label":
             continue
         e = T.enc[v]
         L = T.len[v]
+        if dist is not None:
+            # judged on the encoder's MIR by partial evaluation: with `offset` = O at the instruction's first byte and
+            # the target label at L, a forward jump encodes L - O - len(op), Loop encodes O + len(op) - L, and that very
+            # value reaches the 16-bit range check on the same path
+            got = dist.get(v, {"values": set(), "checked": False, "paths": 0})
+            want_lin = {"O": 1, "L": -1, "1": L} if v == "Loop" else {"L": 1, "O": -1, "1": -L}
+            wkey = tuple(sorted(want_lin.items()))
+            ok = got["values"] == {wkey} and got["checked"]
+            shown = sorted(_lin_str(dict(x)) if isinstance(x, tuple) else str(x) for x in got["values"])
+            rec.inst(R, "bias:" + v, ok=ok, loc=e["loc"], note="encodes %s, range-checked=%s" % (shown, got["checked"]))
+            if not ok:
+                rec.finding(R, "F1.j/bias/%s" % v, "encoder arm %s encodes the distance %s (expected %s) / the same value reaches the range check: %s" % (v, shown or "nothing", _lin_str(want_lin), got["checked"]), loc=e["loc"], fn=T.enc_fn.path)
+            continue
         want = ("Add", L) if v == "Loop" else ("Sub", L)
         ok = want in e["consts"] and e["jump_error"]
         # no other small constant in the label arithmetic
@@ -311,6 +424,14 @@ def run_jumps(rec, F, T=None):
         if not ok:
             rec.finding(R, "F1.j/apply/PushHandler", "op_push_handler does not compute the handler address after consuming both operands", loc=ph.loc, fn=ph.path)
     ok = T.enc_offset_ok
+    if dist is not None:
+        # every instruction kind leaves `offset` at O + len(op) when the loop comes round (peval, all paths)
+        wrong = sorted(v for v, g in dist.items() if g["advance"] != {tuple(sorted({"O": 1, "1": T.len[v]}.items()))})
+        ok = not wrong and len(dist) >= 60
+        rec.inst(R, "encode: offset advances by len(op) for each of %d instruction kinds" % len(dist), ok=ok, loc=T.enc_fn.loc, note=("wrong for %s" % wrong[:6]) if wrong else "")
+        if not ok:
+            rec.finding(R, "F1.j/encode-offset", "ByteCodeEncoder::encode does not advance `offset` by instruction.len() for every instruction (%s)" % (wrong[:6] or "too few kinds analysed"), loc=T.enc_fn.loc)
+        ok = True
     rec.inst(R, "encode: offset += len()", ok=ok, loc=T.enc_fn.loc if T.enc_fn else "?")
     if not ok:
         rec.finding(R, "F1.j/encode-offset", "ByteCodeEncoder::encode does not advance `offset` by instruction.len() for every instruction", loc=T.enc_fn.loc if T.enc_fn else "?")
